@@ -22,7 +22,7 @@ class ObjectBlob(Buffer): pass
 class FieldBlob(Buffer): pass
 GIObjectInfo = GIRealInfo
 GIBaseInfo = GIRealInfo
-GIFunctionInfo = GISignalInfo = GIVFuncInfo = GIConstantInfo = GIPropertyInfo = GIFieldInfo = GIRealInfo
+GIFunctionInfo = GISignalInfo = GIVFuncInfo = GIConstantInfo = GIPropertyInfo = GIFieldInfo = GITypeInfo = GIRealInfo
 
 
 for _c in (GIRealInfo, ObjectBlob, FieldBlob):
@@ -272,3 +272,49 @@ contract('c:g_enum_info_get_method', cfile=CFE, params={'info': 'GIRealInfo?', '
                   'blob_of(info).n_values * info.typelib.data.value_blob_size + n * info.typelib.data.function_blob_size and '
                   'result.type == %d and result.typelib is info.typelib)' % (ENUMISH, INFO_TYPE['FUNCTION']),
                   'C09.g_enum_info_get_method.rejects_other_infos': 'implies(info is None or not %s, result is None)' % ENUMISH})
+
+
+# ---- type slots (gibaseinfo.c): a SimpleTypeBlob is either an inline basic type or the offset of a complex type blob ----------------
+class SimpleTypeBlob(Buffer): pass
+class SimpleTypeBlobFlags(object): pass
+for _c in (SimpleTypeBlob, SimpleTypeBlobFlags):
+    UNIVERSE.register(_c)
+_schema(SimpleTypeBlob, flags='SimpleTypeBlobFlags', offset='int')
+_schema(SimpleTypeBlobFlags, reserved='int', reserved2='int', pointer='int', reserved3='int', tag='int')
+_schema(GIRealInfo, repository='any')
+GI_INFO_TYPE_TYPE = 18
+BI = 'girepository/gibaseinfo.c'
+
+
+def slot(typelib, offset):
+    return __elemref(typelib.data, offset)
+
+
+def union_layout(typelib, offset):
+    """gitypelib-internal.h: SimpleTypeBlob is a union of a 32-bit offset and bit fields; with the bit-field allocation of GCC on a
+    little-endian target `reserved` are bits 0-7 and `reserved2` bits 8-23 of that word (assumed)"""
+    s = slot(typelib, offset)
+    return 0 <= s.offset and s.flags.reserved == s.offset % 256 and s.flags.reserved2 == (s.offset // 256) % 65536
+
+
+def type_blob_offset(typelib, offset):
+    """format rule: a slot whose low 24 bits are all zero holds an inline basic type (the info describes the slot itself),
+    any other value is the offset of the complex type blob"""
+    s = slot(typelib, offset)
+    return offset if s.offset % 16777216 == 0 else s.offset
+
+
+contract('c:_g_type_info_new', cfile=BI, params={'container': 'any', 'typelib': 'GITypelib', 'offset': 'int'}, returns='GIRealInfo',
+         props=('C09',), requires=['isinstance(slot(typelib, offset), SimpleTypeBlob)', 'union_layout(typelib, offset)'],
+         ensures={'C09.type_slot.inline_or_offset':
+                  'result.type == GI_INFO_TYPE_TYPE and result.typelib is typelib and result.offset == type_blob_offset(typelib, offset)'},
+         note='used by every accessor that hands out a GITypeInfo (argument, return value, field, property, constant types)')
+contract('c:_g_info_init', params={'info': 'GIRealInfo', 'type': 'int', 'repository': 'any', 'container': 'any',
+                                   'typelib': 'GITypelib', 'offset': 'int'}, trusted=True, events=True,
+         modifies=['info.type', 'info.typelib', 'info.offset', 'info.repository'],
+         ensures={'at': 'info.offset == offset and info.typelib is typelib and info.type == type'})
+contract('c:_g_type_info_init', cfile=BI, params={'info': 'GIRealInfo', 'container': 'GIRealInfo', 'typelib': 'GITypelib', 'offset': 'int'},
+         props=('C09',), requires=['isinstance(slot(typelib, offset), SimpleTypeBlob)', 'union_layout(typelib, offset)'],
+         modifies=['info.type', 'info.typelib', 'info.offset', 'info.repository'],
+         ensures={'C09.type_slot.inline_or_offset_stack_info':
+                  'info.type == GI_INFO_TYPE_TYPE and info.typelib is typelib and info.offset == type_blob_offset(typelib, offset)'})
